@@ -3,7 +3,7 @@ CONSTANTS
   Alphabet = {97, 10}
   MaxStream = 2
   MaxChunk = 2
-  ReadIds = {2, 4, 7, 11, 13, 19}
+  ReadIds = {2, 4, 7, 13, 19}
   WriteLens = {2}
   MaxWrites = 2
   Grants = {1, 3}
